@@ -2,6 +2,7 @@ SPECIFICATION Spec
 CONSTANTS
   CwdVariant = "code"
   StatGuard = TRUE
+  CcStopsAtExisting = TRUE
   MaxFlags = 5
   MaxStr = 4
   Emit = TRUE
